@@ -323,6 +323,31 @@ def oracle(ck, tier, deep):
                          dict(rep, border_change=float(border)), f"border pixel changed by {border:.3g} with a constant correction")
 
 
+def circular_images(ck, tier):
+    from abel.tools import circularize
+    # … of an already circular image: circularize_image determines the per-angle radial correction itself (both methods); the result
+    # is the image again, to resampling accuracy — also when the brightest point is the centre, where the 'argmax' method has no
+    # radial scale to compare (repair F63: 0/0 corrections turned the image into garbage)
+    yy, xx = np.indices((81, 81))
+    rr = np.hypot(yy - 40, xx - 40)
+    circ = {"gauss-centre": np.exp(-rr ** 2 / 200), "ring": np.exp(-(rr - 25) ** 2 / 18), "centre+ring": np.exp(-rr ** 2 / 30) + 0.5 * np.exp(-(rr - 25) ** 2 / 18),
+            "plateau": 1 / (1 + (rr / 15) ** 4)}
+    for cname, cim in circ.items():
+        for meth in ("argmax", "lsq"):
+            ck.count(("S.circ-image", cname, meth), suite="S.circularize")
+            try:
+                res = quiet(circularize.circularize_image, cim, method=meth, dr=0.5, dt=0.1)
+                out = res[0] if isinstance(res, tuple) else res
+            except Exception as e:
+                ck.violation(dict(site="circularize_image", clause="circular-image-exception", method=meth), dict(image=cname, method=meth), f"{type(e).__name__}: {e}")
+                continue
+            inner = rr < 34
+            dev = float(np.abs(np.where(inner, out - cim, 0)).max()) if out.shape == cim.shape and np.all(np.isfinite(out[inner])) else np.inf
+            if not dev <= 2e-2:            # (resampling on the dr, dt grid and, for lsq, the fitted sub-pixel factors: measured ≤ 6e-3)
+                ck.violation(dict(site="circularize_image", clause="circular-image-changed", method=meth), dict(image=cname, method=meth, deviation=dev),
+                             f"circularize_image(method={meth!r}) of the circular image '{cname}' differs from it by {dev:.3g} of its peak")
+
+
 def run(tier):
     ck = Check("C19", tier)
     deep = tier == "thorough"
@@ -346,6 +371,7 @@ def run(tier):
     else:
         ck.broken.append(dict(kind="proof", module="pyabel_drv", why="driver build failed", log=log[-1500:]))
     oracle(ck, tier, deep or bool(ck.broken))
+    circular_images(ck, tier)
     return ck.finish()
 
 
